@@ -6,6 +6,7 @@ import (
 	"fmt"
 	"io"
 	"reflect"
+	"strings"
 	"testing"
 	"time"
 
@@ -80,6 +81,29 @@ func runC09(t *testing.T, c *choice.Stream, r *Result, opt RunOpt) {
 			}
 			lib = append(lib, col)
 			input = append(input, proto.InputColumn{Name: cs.Name, Data: col})
+		}
+		// input columns that were built by inference (results of a SELECT handed
+		// on to an INSERT): the server may spell their type differently, and the
+		// rows they hold when Do starts are the first block all the same
+		autoIn := !huge && c.Bool("in.auto", 1, 5)
+		hdrType := make([]string, len(cols))
+		for i, cs := range cols {
+			hdrType[i] = cs.Type
+			if !autoIn || strings.Contains(cs.Type, "LowCardinality") || strings.Contains(cs.Type, "Enum") || strings.Contains(cs.Type, "JSON") {
+				continue // an inferred column is neither prepared nor given a state prefix by the client
+			}
+			a := new(proto.ColAuto)
+			if a.Infer(proto.ColumnType(cs.Type)) != nil {
+				continue
+			}
+			if reflect.TypeOf(a.Data) != reflect.TypeOf(lib[i]) {
+				continue // the bridge fills the column the generator knows
+			}
+			lib[i], input[i].Data = a.Data, a
+			if strings.Contains(cs.Type, "DateTime") && !strings.Contains(cs.Type, "Tuple(") && !strings.Contains(cs.Type, "Map(") {
+				hdrType[i] = gen.ServerSpelling(c, cs.Type)
+			}
+			r.Fire("inferred_input_column")
 		}
 		rows0 := 0
 		if c.Bool("initial", 1, 2) {
@@ -193,6 +217,11 @@ func runC09(t *testing.T, c *choice.Stream, r *Result, opt RunOpt) {
 		overwriteOK := true
 		onInput := func(ctx context.Context) error {
 			_ = rec.hit("input")
+			for i := range lib {
+				if a, ok := input[i].Data.(*proto.ColAuto); ok {
+					lib[i] = a.Data // whatever inference has made of it
+				}
+			}
 			if played >= len(ops) {
 				for _, col := range lib {
 					col.Reset()
@@ -271,7 +300,7 @@ func runC09(t *testing.T, c *choice.Stream, r *Result, opt RunOpt) {
 		script = append(script, simnet.Step{Label: "query", OnPacket: nop}, simnet.Step{Label: "ext-end", OnPacket: nop})
 		hdr := &refproto.Block{BucketNum: -1}
 		for _, cs := range cols {
-			hdr.Cols = append(hdr.Cols, refproto.Column{Name: cs.Name, Type: cs.Type, Vals: []any{}})
+			hdr.Cols = append(hdr.Cols, refproto.Column{Name: cs.Name, Type: hdrType[len(hdr.Cols)], Vals: []any{}})
 		}
 		script = append(script, simnet.Step{Label: "schema", Send: (&SPacket{Kind: "data", Block: hdr}).Encode(cf)})
 		busy := c.Bool("progress", 1, 2)
